@@ -127,6 +127,15 @@ def feasible(ctx: Ctx, rel) -> bool:
         # light saturation: products of the new relation with itself are not needed;
         # squares/sign lemmas are added by mvar()
         r = L.s.check()
+        if str(r) == "unsat":
+            # an infeasibility verdict prunes a path: it carries the same weight as a proof, so it gets the second opinion too
+            q0 = ctx.caches.get("cross_checked", 0)
+            ctx.caches["cross_checked"] = ctx.caches.get("cross_checked_feas", 0)
+            try:
+                cross_check(ctx, L.s)
+            finally:
+                ctx.caches["cross_checked_feas"] = ctx.caches.get("cross_checked", 0)
+                ctx.caches["cross_checked"] = q0
     finally:
         L.s.pop()
     ctx.stats["feas_queries"] += 1
